@@ -159,7 +159,7 @@ impl MultiWorld {
                             let (_, counter) = srv.h.storage.verif_watch_state(*db, key);
                             format!("{}:{}:{}", db, resp::show_bytes(key), if counter > *base { "stale" } else { "fresh" })
                         }).collect();
-                        s.push_str(&format!("c{}: {} db={} multi={} queued={} watched={:?}\n", i, r.state, r.db, r.in_multi, r.queued, w))
+                        s.push_str(&format!("c{}: {} db={} multi={} queued={} watched={:?} aborted={} deferred={}\n", i, r.state, r.db, r.in_multi, r.queued, w, r.aborted, r.deferred))
                     }
                     None => s.push_str(&format!("c{}: gone\n", i)),
                 },
@@ -518,6 +518,16 @@ impl World for MultiWorld {
                                 out.devs.push((format!("{}|CONNSTATE|watched keys differ (impl {}, model {})", self.spec.prop, imp.len(), modl.len()), json!({"conn": i, "impl": imp.iter().map(|(d, k)| format!("{}:{}", d, String::from_utf8_lossy(k))).collect::<Vec<_>>()})));
                                 out.state_bad = true;
                             }
+                        }
+                        // flags no command leaves behind at quiescence: an aborted mark outside a transaction, frames
+                        // held back for a client that is not blocked
+                        if r.aborted && !r.in_multi {
+                            out.devs.push((format!("{}|CONNSTATE|aborted flag set outside a transaction", self.spec.prop), json!({"conn": i})));
+                            out.state_bad = true;
+                        }
+                        if r.deferred > 0 && r.state != "blocked" {
+                            out.devs.push((format!("{}|CONNSTATE|{} frame(s) held back for a connection that is not blocked", self.spec.prop, r.deferred), json!({"conn": i})));
+                            out.state_bad = true;
                         }
                         if r.db != m.db {
                             out.devs.push((format!("{}|CONNSTATE|selected database differs (impl {}, model {})", self.spec.prop, r.db, m.db), json!({"conn": i})));
